@@ -91,7 +91,7 @@ def run(pid, opmix, focus_text, manifest_assumptions, extra=None, allowed=None, 
     build_harness(['arrops'])
     rng = c.rng
     quick = c.tier == 'quick'
-    n_hist = 260 if quick else 6000
+    n_hist = 600 if quick else 8000
     hist = []
     # corpus of minimised / historical cases first (the defects repaired by fix: commits)
     corpus = os.path.join(VERIF, 'corpus', 'arrays.txt')
@@ -108,7 +108,7 @@ def run(pid, opmix, focus_text, manifest_assumptions, extra=None, allowed=None, 
         hist.append(g)
     # lock-step pairs (C03): the same random stream with all-Go and all-C roots
     pairs = []
-    for i in range((150 if oracle == 'lockstep' else 60) if quick else 1500):
+    for i in range((500 if oracle == 'lockstep' else 80) if quick else 3000):
         seed = rng.getrandbits(48)
         ty = 'six' if i % 3 == 0 else 'all'
         ga = ag.HistoryGen(random.Random(seed), backend_mode='g', types=ty, opmix=opmix, allowed=allowed).gen()
@@ -189,12 +189,17 @@ def run(pid, opmix, focus_text, manifest_assumptions, extra=None, allowed=None, 
             mal_panics += 1
         pos += 1
     for l in corpus_lines:
-        per = {'iop': impl[pos]} if l.startswith('IOP') else parse_impl(impl[pos])
-        for ty, body in per.items():
-            if body != model[pos]:
-                c.corr_broken.append({'history': l, 'type': ty, 'diff': first_diff(body, model[pos])})
-                break
-        c.count(l, nontrivial=True)
+        if l.startswith('IOP'):
+            if impl[pos] != model[pos]:
+                c.corr_broken.append({'iop': l, 'impl': impl[pos], 'model': model[pos]})
+            c.count(l, nontrivial=True)
+        else:
+            g = ag.shadow_replay(l)
+            if g is None:
+                g = ag.HistoryGen(rng); g.kinds = []
+                check_history(g, impl[pos], model[pos], l, valid=False)
+            else:
+                check_history(g, impl[pos], model[pos], l, valid=True)
         pos += 1
     for (kind, arg, line) in iops:
         c.count(line, nontrivial=True)
@@ -204,7 +209,22 @@ def run(pid, opmix, focus_text, manifest_assumptions, extra=None, allowed=None, 
         if impl[pos] != exp:
             c.violation('iop_%d.json' % pos, {'kind': 'integer-helper-oracle', 'case': line, 'implementation': impl[pos], 'definition': exp})
         pos += 1
+    searched = 0
+    if c.corr_broken and not c.violations and oracle == 'spec':
+        # section 3.3 of DESIGN.md: search for a concrete failing input with the abstract-spec oracle
+        for rnd in range(12):
+            batch = [ag.HistoryGen(rng, backend_mode=rng.choice(['g', 'c', 'mixed']), types=rng.choice(['all', 'six']),
+                                   opmix=opmix, max_ops=20, allowed=allowed).gen() for _ in range(500)]
+            bl = [g.line() for g in batch]
+            bi = run_lines(os.path.join(HARNESS, 'bin', 'arrops'), bl, env=GOENV)
+            bm = run_model(bl)
+            for g, li, lm, ln in zip(batch, bi, bm, bl):
+                check_history(g, li, lm, ln)
+            searched += len(batch)
+            if c.violations:
+                break
     extra_cov = extra(c) if extra else {}
+    extra_cov['failing_input_search_histories'] = searched
     for g in hist[:3]:
         c.sample({'history': g.line(), 'spec_final_observable': g.expected[-1][:200]})
     c.cov['rule'] = ('operation histories (4-%d ops) over 1-3 root arrays (1-4 dims, extents 1-5, Go- and C-backed) with chains of nested, '
